@@ -121,6 +121,20 @@ impl Machine {
                     }
                 }
             }
+            // scalars get a fill that depends on their name only (so that two placements of the
+            // same program start from the same values)
+            for d in &p.globals {
+                if let DeclKind::Scalar(ty) = &d.kind {
+                    if let (Some(vi), Some(a)) = (prep.rec.vars.iter().find(|v| v.name == d.name), prep.img.var_addr.get(&d.name)) {
+                        let ca = cell_addr(&prep.rec, vi, *a);
+                        let h = crate::engine::hash64(&d.name);
+                        cpu.mem[ca as usize] = (h & 0xff) as u8;
+                        if ty.bits() == 16 {
+                            cpu.mem[ca as usize + 1] = ((h >> 8) & 0xff) as u8;
+                        }
+                    }
+                }
+            }
             for d in &p.globals {
                 if let DeclKind::Ptr = &d.kind {
                     if let (Some(a), Some(t)) = (prep.img.var_addr.get(&d.name), first_array) {
@@ -368,4 +382,27 @@ pub fn states_equal_on_globals(pa: &Prepared, fa: &FinalState, pb: &Prepared, fb
         }
     }
     fa.ram_lo.iter().zip(fb.ram_lo.iter()).enumerate().all(|(i, (x, y))| ignore[i] || x == y)
+}
+
+/// Bytes of a variable (by name) in a final state.
+pub fn var_bytes_of(p: &Prepared, fs: &FinalState, name: &str) -> Vec<u8> {
+    let vi = match p.rec.vars.iter().find(|v| v.name == name) {
+        Some(v) => v,
+        None => return vec![],
+    };
+    let a = match p.img.var_addr.get(name) {
+        Some(a) => cell_addr(&p.rec, vi, *a) as usize,
+        None => return vec![],
+    };
+    let n = asm65::var_bytes(vi) as usize;
+    let mut out = Vec::new();
+    for k in 0..n {
+        let ad = a + k;
+        if ad < 0x100 {
+            out.push(fs.ram_lo[ad]);
+        } else if ad >= RAM_SPLIT.0 && ad < RAM_SPLIT.1 {
+            out.push(fs.ram_split[ad - RAM_SPLIT.0]);
+        }
+    }
+    out
 }
